@@ -13,7 +13,8 @@ THEOREMS = ['C17_interp_at_nodes', 'C17_interp_ref_on_segment', 'C17_interp_affi
             'C17_safe_extrap_window', 'C17_safe_extrap_affine_exact', 'C17_roundtrip_partial',
             'C17_roundtrip_defined', 'C17_roundtrip_outside', 'C17_surface_pressure_on_segment',
             'C17_surface_pressure_is_intercept', 'C17_bilinear_constants', 'C17_bilinear_identity_same_grid',
-            'C17_nearest_constants', 'C17_nearest_identity_same_grid', 'C17_hyps_satisfiable']
+            'C17_nearest_constants', 'C17_nearest_identity_same_grid', 'C17_dot_interp_eq_ref_R',
+            'C17_safe_extrap_window_R', 'C17_hyps_satisfiable']
 LEVEL = 'proof'
 LEVEL_TEXT = ('machine-checked theorems (Coq) for every ordered field (hence the reals), every strictly increasing '
               'node list of length >= 2, all data and ALL queries: value at nodes, chord on every closed cell, affine '
